@@ -30,6 +30,9 @@ def main():
         if a == '--tier':
             tier = sys.argv[i + 1]
     name = '%s-%s' % (prop, k)
+    for i, a in enumerate(sys.argv):
+        if a == '--name':
+            name = sys.argv[i + 1]
     wt = '/tmp/mw/' + name
     os.makedirs('/tmp/mw', exist_ok=True)
     sh('git -C /repo worktree remove --force %s' % wt)
